@@ -8,18 +8,22 @@ from gen import plural as G
 def main():
     chk = common.Check('C04')
     import plural_common as P
-    proved = chk.prove('I18n.Props.C04', generated=('intexpr', 'grammar'))
+    import plurallr_common as PL
+    proved = chk.prove('I18n.Props.C04', generated=('intexpr', 'grammar', 'plurallr'))
     driver_ok = os.path.exists(common.driver_path()) and not any('untranslatable' in s for s in chk.lean.translation.values())
     strings = None
     if driver_ok:
         (_dis, _outs), strings = P.stream_parse(chk, 5 if chk.thorough else 4, 4 if chk.thorough else 3, 30000 if chk.thorough else 3000)
+        strings = list(strings) + PL.hostile_strings()
+        PL.stream_lr(chk, strings)
+        PL.stream_lex(chk, strings)
         cases = P.build_cases(chk, 5000 if chk.thorough else 1000, depth=6 if chk.thorough else 5)
         P.stream_eval(chk, cases, per_case=8 if chk.thorough else 4)
     else:
         chk.broken.append({'kind': 'correspondence', 'stream': 'plural-*', 'problem': 'driver could not be rebuilt from the regenerated model'})
     mult = 4 if chk.broken else 1
     if strings is None:
-        strings = list(P.token_strings(chk.rng, 4)) + list(P.char_strings(3))
+        strings = list(P.token_strings(chk.rng, 4)) + list(P.char_strings(3)) + PL.hostile_strings()
     cex, tried = P.falsify_parse_eval(chk, (200000 if chk.thorough else 30000) * mult, strings)
     chk.evaluations += tried
     chk.coverage['falsifier'] = {'strings_vs_reference_parser_and_C_evaluator': tried, 'found': cex is not None}
@@ -31,15 +35,22 @@ def main():
     chk.finish(
         level='proof',
         rule='token-kind sequences (all, up to the stated length), all strings over an 18-character lexer alphabet up to the stated length, '
-             'grammar-directed expressions with minimal parentheses and random blanks, one/two-edit mutants; non-trivial = distinct accepted string of length > 1',
+             'grammar-directed expressions with minimal parentheses and random blanks, one/two-edit mutants, strings with hostile characters (non-ASCII digits/spaces/letters, controls); non-trivial = distinct accepted string of length > 1',
         trusted=['Lean 4.33 kernel', 'axioms: propext, Classical.choice, Quot.sound only',
-                 'py2lean translator (evaluator) and grammar2lean dump (declarations)',
-                 'rply LALR construction: NOT modelled - the hand-written lexer + recursive-descent parser model is tied to the real parser by the plural-parse stream',
-                 'Spec.mathEval / Spec.D / Spec.PluralY are my reading of C and plural.y'],
-        explanation='Proved for all inputs: eval_iff_C, eval_fails_iff, eval_error_kinds, eval_value_range (generated Evaluator = lazy ℤ semantics under the in-range side '
-                    'condition, any width >= 1); grammar_pin (declarations handed to rply = plural.y, by decide on the regenerated dump); parse_sound (model accepts => '
-                    'stratified C grammar derives that AST). OUTSTANDING (not yet proved, covered only by correspondence + falsifier): completeness of the parser model '
-                    '(every derivable token list is accepted), uniqueness of derivations, lexer <-> token spec, equivalence with the ambiguous plural.y grammar.')
+                 'py2lean translator (evaluator), grammar2lean dump (declarations incl. the lexer regexes that Model/PluralLex interprets), plurallr2lean dump (rply LALR tables of the live parser; states/productions renumbered canonically)',
+                 'hand-written lexer model and LR driver loop (rply LexerStream.next / LRParser.parse / _reduce_production + lib/intexpr.py action functions): tied to the real parser by the '
+                 'plural-parse and plural-lr streams (outcome, tree, sequence of reductions); rply\'s table CONSTRUCTION is not modelled - its output is dumped and proved to accept exactly the declared grammar with the C trees',
+                 'Spec.mathEval / Spec.D / Spec.Amb / Spec.Tokens / Spec.PluralY are my reading of ISO C and plural.y'],
+        explanation='Proved for all inputs: eval_iff_C, eval_fails_iff, eval_error_kinds, eval_value_range (generated Evaluator = lazy Z semantics under the in-range side '
+                    'condition, any width >= 1); grammar_pin, lr_tables_pin (dumped regexes readable and = the rules the lexer proofs are about, no flags, operator tables, table columns; by decide on the regenerated dumps); lex_complete_sound, '
+                    'tokens_unique, lex_rejects_iff (lexer model = longest-lexeme tokenisation of plural.y yylex, unique, only blank and tab skipped); parse_sound + parse_complete = '
+                    'parse_iff_derives (RD model returns e iff the stratified C grammar derives e, with the fuel the model really uses), derives_functional (one AST per token list); '
+                    'accept_iff_plural_y (accepted token lists = language of plural.y\'s ambiguous grammar); parse_string_iff / accept_string_iff / reject_string_iff (end to end on strings, '
+                    'no third outcome); lr_iff_parse / lr_iff_derives / lr_accept_iff_plural_y / lr_parse_string_iff (rply\'s LR driver over the LALR tables dumped from the live parser returns '
+                    'e iff the C grammar derives e); lr_eq_parse / lr_never_crashes / lr_parse_string_eq (LR driver model = RD model as functions; the driver never reaches its internal crash outcome). '
+                    'plural_y_is_declared_grammar / lr_language_is_declared_grammar (Spec.Amb = CFG language of the dumped productions = language of the dumped tables: rply\'s LALR construction validated for this grammar). '
+                    'lex_regex_eq / lex_regex_iff_tokens / lex_regex_never_crashes (lexer interpreted from the dumped regexes inside rply\'s loop = hand-written lexer model = Spec.Tokens). '
+                    'OUTSTANDING (test-level): regex-subset semantics, rply lexer loop, LR driver loop and action functions are hand-written readings of the Python source, tied by the plural-parse / plural-lr / plural-lex streams only.')
 
 if __name__ == '__main__':
     common.main_wrapper(main)
